@@ -114,11 +114,25 @@ theorem okPre_of {s : Streams} {op : Op} (h : opPre4 s op) : okPre s op := by
   cases op <;> first | exact h.2 | exact trivial
 
 theorem accPre2_of {s : Streams} {op : Op} (h : opPre4 s op) (hp : NoPush s) (hj : NoPPP s) : accPre2 s op := by
-  cases op <;> first
-    | exact h
-    | exact trivial
-    | exact recvPushPromise_nopush hp _ _
-    | exact hj.dropPPP _
+  cases op
+  case handleError e => exact h
+  case recvPushPromise id hd => exact recvPushPromise_nopush hp id hd
+  case recvTakeRequest k => exact h
+  case dropStreamRef k => exact hj.dropPPP k
+  case panic m => exact h
+  all_goals exact trivial
+
+theorem valid_of4 {s : Streams} {op : Op} (h : opPre4 s op) : (toRecvOp op).valid s := by
+  cases op
+  case setTargetConnectionWindow t => exact h
+  case applyLocalSettingsFrame v => exact h.1
+  all_goals exact trivial
+
+theorem flowPre_of4 {s : Streams} {op : Op} (h : opPre4 s op) : flowPre op := by
+  cases op
+  case recvWindowUpdate id inc => exact h
+  case applyRemoteSettings v b => exact h
+  all_goals exact trivial
 
 /-- the generic components: they do not care which operation it is -/
 theorem good4_generic {s : Streams} {H : List Nat} (g : Good4 s H) (op : Op) (hpre : opPre4 s op)
@@ -167,18 +181,80 @@ theorem good4_step {s : Streams} {H : List Nat} (g : Good4 s H) (op : Op) (hpre 
   have hh3 : opHandles3 s H op = opHandles2 s H op := by
     cases op <;> first | rfl | exact absurd rfl h1
   have g3' := good3_step g.g3 op hold hin2 he he'
-  have hv : (toRecvOp op).valid s := by
-    rcases hc : op with _ | _ | _ | _ | ⟨id, hd⟩ | _ | _ | _ | _ | _ | _ | _ | _ | _ | _ | _ | _ | _ | _ | _ | _ | _ | _ | _ | _ | _ | _ | _ | _ | _ | _ | _ | _ | _ | _ | _ | _ | _ | _ | _ | _ | _ <;> subst hc <;>
-      first
-      | exact recvValid_of (opPre3_old hold g.g3.noppp (fun _ _ e => by cases e))
-      | exact trivial
-  have hfl : flowPre op := by
-    by_cases hp : ∃ id hd, op = .recvPushPromise id hd
-    · obtain ⟨id, hd, rfl⟩ := hp; exact trivial
-    · exact flowPre_of (opPre3_old hold g.g3.noppp (fun id hd e => hp ⟨id, hd, e⟩))
   rw [hh3]
-  rw [hh3] at *
   exact ⟨g3', J_stepAll g.g3.good.npi g.g3.good.hok g.j op (accPre2_of hpre g.g3.nopush g.g3.noppp) hacc,
-    JF_step g.jf op hv he (okPre_of hpre)⟩
+    JF_step g.jf op (valid_of4 hpre) he (okPre_of hpre)⟩
+
+/-- histories of stage 3 (connections without server push) -/
+inductive NReach : Streams → List Nat → Prop
+  | init {s : Streams} : Init2 s → NoPush s → NReach s []
+  | step {s : Streams} {H : List Nat} (op : Op) : NReach s H → opPre4 s op → (∀ k, opKey3 op = some k → k ∈ H) →
+      NReach (op.apply s) (opHandles3 s H op)
+
+theorem NReach.keys {s : Streams} {H : List Nat} (h : NReach s H) : KeysOK s ∧ NextLocal s := by
+  induction h with
+  | init hi _ => exact ⟨hi.blank.keysOK, hi.blank.next⟩
+  | step op _ _ _ ih => exact keys_step_op ih.1 ih.2 op
+
+/-- **No panic, handle discipline, 40 operations, connections without server push** -/
+theorem nreach_good {s : Streams} {H : List Nat} (h : NReach s H) (he : ErrOK s) : Good4 s H := by
+  induction h with
+  | init hi hp =>
+    exact ⟨⟨⟨blank_npi hi.blank hi.np hi.q, fun k hk => absurd hk List.not_mem_nil, IBS_blank hi.blank hi.q, JR_init hi.recv,
+      ConnFlowP.Init.safe hi.flow⟩, NoPPP_blank hi.blank, hp⟩, J_blank hi.blank hi.q, JF_init hi.recv⟩
+  | @step t _ op hr hpre hin ih =>
+    have he0 : ErrOK t := errOK_back_op hr.keys.1 hr.keys.2 op he
+    exact good4_step (ih he0) op hpre hin he0 he
+
+/-- the request head `next_incoming` hands out is there for `take_request` -/
+theorem nreach_accept {s : Streams} {H : List Nat} (h : NReach s H) (he : ErrOK s) {k : Nat} (hk : s.nextIncoming.2 = some k) :
+    opPre4 s.nextIncoming.1 (.recvTakeRequest k) :=
+  let g := nreach_good h he
+  ((nextIncoming_npi g.g3.good.npi g.j g.g3.good.hok).2.2.2 k hk).2.2.2.2.2
+
+/-- witness: the stream layer of a new server connection -/
+def wInitS : Streams :=
+  { counts := { isServer := true },
+    actions := { recv := { nextStreamId := some 1, flow := { windowSize := { val := 65535 }, available := { val := 65535 } } },
+                 send := { nextStreamId := some 2,
+                           prioritize := { flow := { windowSize := { val := 65535 }, available := { val := 65535 } } } } } }
+
+theorem wInitS_init2 : Init2 wInitS :=
+  ⟨⟨rfl, rfl, rfl, rfl, rfl, rfl, rfl, rfl, rfl, rfl, by intro x hx; cases hx; rfl⟩, rfl, fun q => by cases q <;> rfl,
+   ⟨rfl, rfl, rfl, rfl, rfl⟩, ⟨rfl, by decide⟩⟩
+
+/-- witness history: `GET /` on stream 1, accepted (`next_incoming`, `take_request`), answered with END_STREAM, handle
+    dropped, wake log cleared, EOF with `clear_pending_accept` -/
+def wOpsS : List Op :=
+  [.recvHeaders cxReq, .nextIncoming, .recvTakeRequest 0, .refSendResponse 0 [] true, .dropStreamRef 0, .clearWakes, .recvEof true]
+
+theorem NReach.step' {s : Streams} {H : List Nat} (op : Op) (h : NReach s H) (hpre : opPre4 s op)
+    (hin : ∀ k, opKey3 op = some k → k ∈ H) {s' : Streams} {H' : List Nat} (es : s' = op.apply s)
+    (eh : H' = opHandles3 s H op) : NReach s' H' := by subst es; subst eh; exact .step op h hpre hin
+
+set_option maxRecDepth 8000 in
+theorem wOpsS_nreach : NReach (run wInitS wOpsS) [] := by
+  have r0 : NReach wInitS [] := .init wInitS_init2 (.inl rfl)
+  have r1 : NReach (run wInitS [.recvHeaders cxReq]) [] :=
+    r0.step' (.recvHeaders cxReq) (by show _ = none; decide) (by intro k h; cases h) rfl (by decide +kernel)
+  have r2 : NReach (run wInitS [.recvHeaders cxReq, .nextIncoming]) [0] :=
+    r1.step' .nextIncoming trivial (by intro k h; cases h) rfl (by decide +kernel)
+  have hreq : opPre4 (run wInitS [.recvHeaders cxReq, .nextIncoming]) (.recvTakeRequest 0) :=
+    nreach_accept r1 (by unfold ErrOK; decide +kernel) (by decide +kernel)
+  have r3 : NReach (run wInitS [.recvHeaders cxReq, .nextIncoming, .recvTakeRequest 0]) [0] :=
+    r2.step' (.recvTakeRequest 0) hreq (by intro k h; cases h; decide) rfl (by decide +kernel)
+  have r4 : NReach (run wInitS [.recvHeaders cxReq, .nextIncoming, .recvTakeRequest 0, .refSendResponse 0 [] true]) [0] :=
+    r3.step' (.refSendResponse 0 [] true) trivial (by intro k h; cases h; decide) rfl (by decide +kernel)
+  have r5 : NReach (run wInitS [.recvHeaders cxReq, .nextIncoming, .recvTakeRequest 0, .refSendResponse 0 [] true,
+      .dropStreamRef 0]) [] :=
+    r4.step' (.dropStreamRef 0) trivial (by intro k h; cases h; decide) rfl (by decide +kernel)
+  have r6 : NReach (run wInitS [.recvHeaders cxReq, .nextIncoming, .recvTakeRequest 0, .refSendResponse 0 [] true,
+      .dropStreamRef 0, .clearWakes]) [] :=
+    r5.step' .clearWakes trivial (by intro k h; cases h) rfl (by decide +kernel)
+  exact r6.step' (.recvEof true) trivial (by intro k h; cases h) rfl (by decide +kernel)
+
+set_option maxRecDepth 8000 in
+theorem wOpsS_facts : ErrOK (run wInitS wOpsS) ∧ (run wInitS wOpsS).panicked = none := by
+  refine ⟨by unfold ErrOK; decide +kernel, by decide +kernel⟩
 
 end H2V.Lemmas.ConnNoPanicP
